@@ -721,6 +721,10 @@ class ESME:
                 else:
                     # Use last pertinent segment response
                     smpp_message = segment_status.last_response or smpp_message
+            elif original_message.get_segmentation_data()[2] > 0:
+                # This is a segment, but status of its message is gone: other segments timed out
+                # while this response was processed and the message was reported already
+                smpp_message = _SUBMIT_SM_SEGMENT
 
         self._logger.debug(
             'Handled SMPP response',
